@@ -228,7 +228,7 @@ impl FragmentedMuxer {
         let first_dts = self.samples[0].dts;
         let last_dts = self.samples.last().unwrap().dts;
         let duration_ticks = last_dts.saturating_sub(first_dts);
-        let duration_ms = duration_ticks * 1000 / self.config.timescale as u64;
+        let duration_ms = ticks_to_ms(duration_ticks, self.config.timescale);
 
         duration_ms >= self.config.fragment_duration_ms as u64
     }
@@ -241,8 +241,18 @@ impl FragmentedMuxer {
         let first_dts = self.samples[0].dts;
         let last_dts = self.samples.last().unwrap().dts;
         let duration_ticks = last_dts.saturating_sub(first_dts);
-        duration_ticks * 1000 / self.config.timescale as u64
+        ticks_to_ms(duration_ticks, self.config.timescale)
     }
+}
+
+/// Convert a tick span to milliseconds without overflowing for very large spans; a zero
+/// timescale (which cannot describe any duration) yields 0 instead of dividing by zero.
+fn ticks_to_ms(ticks: u64, timescale: u32) -> u64 {
+    if timescale == 0 {
+        return 0;
+    }
+    let ms = ticks as u128 * 1000 / timescale as u128;
+    ms.min(u64::MAX as u128) as u64
 }
 
 // ============================================================================
@@ -862,7 +872,7 @@ fn build_trun(samples: &[FragmentSample], data_offset: u32) -> Vec<u8> {
         payload.extend_from_slice(&flags.to_be_bytes());
 
         // Composition time offset (signed, pts - dts)
-        let cts = (sample.pts as i64 - sample.dts as i64) as i32;
+        let cts = (sample.pts as i64).wrapping_sub(sample.dts as i64) as i32;
         payload.extend_from_slice(&cts.to_be_bytes());
     }
 
